@@ -18,7 +18,8 @@
     C08_gd3_eleven_strings, C08_clocks_declared, C08_pcm_stream_in_block.
 
   GD3 text (model decoder `utf8ToUtf16` against the reader-side `utf8OfUnits`, Proofs/Utf8.lean):
-    C08_utf8_decode_encode, C08_utf8_valid_tag, C08_utf8_decoder_scalars, C08_gd3_renders_tag.
+    C08_utf8_decode_encode, C08_utf16_encode_decode, C08_utf8_valid_tag, C08_utf8_decoder_scalars,
+    C08_gd3_renders_tag.
 
   Whole songs (`Platform::vgm_export` + `MD_Driver` + `get_tags`, Model/MdDriver.lean incl. PCM
   instruments; helper lemmas Proofs/MdExport.lean, Proofs/VgmPcm.lean, Proofs/VgmTagErr.lean):
@@ -275,6 +276,18 @@ theorem C08_utf8_decode_encode (us : List Nat) (h : units16 us = true) :
 
 example : units16 [0x41, 0xD83D, 0xDE00, 0x3042, 0xDC00, 0xD800] = true := by decide
 example : utf8OfUnits [0x41, 0xD83D, 0xDE00, 0x3042] = [0x41, 0xf0, 0x9f, 0x98, 0x80, 0xe3, 0x81, 0x82] := by decide
+
+/-- utf16_encode_decode: on every WELL-FORMED UTF-16 string (`wfUtf16`, decidable: 16-bit units,
+every surrogate half of a high–low pair) the reader-side encoder produces well-formed UTF-8
+(`validUtf8`) and the writer's decoder gives the string back: with `C08_utf8_valid_tag` the two
+are mutually inverse bijections between well-formed UTF-8 and well-formed UTF-16, both denoting
+the same scalar values. -/
+theorem C08_utf16_encode_decode (us : List Nat) (h : wfUtf16 us = true) :
+    validUtf8 (utf8OfUnits us) = true ∧ utf8ToUtf16 (utf8OfUnits us) = .ok us ∧
+    (∀ cp ∈ scalarsOfUnits us, isScalar cp = true) ∧ utf8OfUnits us = utf8OfScalars (scalarsOfUnits us) :=
+  ⟨valid_utf8OfUnits us h, C08_utf8_decode_encode us (wf_units16 us h), scalars_of_wf us h, utf8OfUnits_eq us⟩
+
+example : wfUtf16 [0x41, 0xD83D, 0xDE00, 0x3042, 0xFFFF] = true ∧ wfUtf16 [0xDC00, 0xD800] = false ∧ wfUtf16 [0xD800] = false := by decide
 
 /-- utf8_valid_tag: every well-formed UTF-8 string (`validUtf8`, Unicode table 3-7) is the UTF-8
 form of a list `cps` of Unicode scalar values; the decoder succeeds on it, yields exactly the
